@@ -659,12 +659,15 @@ func newFilterThenReload(r *vh.RNG) {
 		tw := r.U32()
 		its := [][]byte{r.Bytes(20), r.Bytes(32)}
 		m := popMsg(vh.Pick(r, []int{1, 3, 8, 32}), nh, tw, 1, its)
+		m0 := f.MsgFilterLoad()
+		equiv := history{Init: recOf(make([]byte, len(m0.Filter)), m0.HashFuncs, m0.Tweak, uint32(m0.Flags)),
+			Ops: []opRec{{Op: "reload", Msg: m}, {Op: "matches", Data: vh.Hex(its[0])}, {Op: "matches", Data: vh.Hex(its[1])}}}
 		f.Reload(mkMsg(m))
 		rep.Count("history:newfilter-reload", fmt.Sprintf("nfr%d", j), true)
 		for _, it := range its {
 			if !f.Matches(it) {
 				rep.Violate("C09:bip37:matches", "Matches disagrees with the BIP37 reference",
-					map[string]interface{}{"scenario": "NewFilter then Reload(populated filterload) then Matches(member)", "reloaded": m, "item": vh.Hex(it), "got": false, "bip37": true})
+					map[string]interface{}{"scenario": "NewFilter then Reload(populated filterload) then Matches(member)", "reloaded": m, "item": vh.Hex(it), "got": false, "bip37": true, "history": equiv})
 			}
 		}
 	}
